@@ -144,7 +144,21 @@ def rule_pure(ctx):
                           f"reading description writes `{e[1].name}.{e[2]}`: the pending result set / session is changed by a read")
         # the DESCRIBE must run; its text is DESCRIBE <last sql>
         parses = [e for e in p.effects if e[0] == "parse"]
-        okp = any("DESCRIBE" in text_of(e[2]).upper() and "LAST_SQL" in text_of(e[2]) for e in parses)
+        def whole_recorded_text(v):
+            """`DESCRIBE ` + the recorded value itself (possibly through str()): not a slice / split / rewrite of it"""
+            parts = getattr(v, "parts", None)
+            if parts is None:
+                return False
+            lits = "".join(x for x in parts if isinstance(x, str)).strip().upper()
+            holes = [x for x in parts if not isinstance(x, str)]
+            if lits != "DESCRIBE" or len(holes) != 1:
+                return False
+            h = holes[0]
+            while isinstance(h, Sym) and h.origin and h.origin[0] in ("str",) and len(h.origin) > 1:
+                h = h.origin[1]
+            return isinstance(h, Sym) and h.tag == "LAST_SQL"
+
+        okp = any(whole_recorded_text(e[2]) for e in parses)
         for e in parses:
             if "LAST_SQL" in text_of(e[2]):
                 rd = e[3].get("read") if isinstance(e[3], dict) else None
